@@ -104,3 +104,40 @@ fn self_remove_is_final_whatever_the_callback_does_next() {
         let _src = disp.into_source_inner(); // panics if the loop still holds the source
     }
 }
+
+/// two self-directed operations in one callback: update()/disable() of the running source (deferred) AND remove() of it.
+/// Every call succeeds; the dispatch must succeed too and the source must be gone.
+#[test]
+fn self_update_or_disable_combined_with_self_remove() {
+    use calloop::ping::make_ping;
+    use calloop::{EventLoop, RegistrationToken};
+    use std::cell::Cell;
+    use std::rc::Rc;
+    use std::time::Duration;
+    for variant in 0..4u8 {
+        let mut el: EventLoop<u32> = EventLoop::try_new().unwrap();
+        let h = el.handle();
+        let (ping, src) = make_ping().unwrap();
+        let tokc: Rc<Cell<Option<RegistrationToken>>> = Rc::new(Cell::new(None));
+        let (h2, t2) = (h.clone(), tokc.clone());
+        let tok = h.insert_source(src, move |_, _, n: &mut u32| {
+            *n += 1;
+            let me = t2.get().unwrap();
+            match variant {
+                0 => { h2.update(&me).unwrap(); h2.remove(me); }
+                1 => { h2.disable(&me).unwrap(); h2.remove(me); }
+                2 => { h2.remove(me); assert!(h2.update(&me).is_err()); }
+                _ => { h2.remove(me); assert!(h2.disable(&me).is_err()); }
+            }
+        }).unwrap();
+        tokc.set(Some(tok));
+        ping.ping();
+        let mut n = 0;
+        el.dispatch(Duration::from_millis(100), &mut n).expect("every handle call in the callback succeeded: the dispatch must not fail");
+        assert_eq!(n, 1);
+        ping.ping();
+        el.dispatch(Duration::from_millis(30), &mut n).unwrap();
+        assert_eq!(n, 1, "variant {}: the removed source fired again", variant);
+        assert!(matches!(h.enable(&tok), Err(calloop::Error::InvalidToken)), "variant {}: the source is still inserted", variant);
+    }
+}
